@@ -85,6 +85,7 @@ class Extractor:
         self.has_seek = False
         self.unknown_calls = []
         self.field_of_local = {}
+        self.all = []
 
     def ty(self, n):
         return self.crate.ty(n.get("t")) if n and n.get("t") is not None else None
@@ -214,6 +215,13 @@ class Extractor:
                 prims = [t for t in toks if t.k in ("P", "B", "S")]
                 if len(prims) == 1 and prims[0].name is None:
                     prims[0].name = n["pat"]["name"]
+                elif not prims and n.get("init") is not None and re.search(r"from_(le|be|ne)_bytes", hirq.render(n["init"])):
+                    # `read_exact(&mut buf)?; let NAME = u32::from_le_bytes(buf);`
+                    for t in reversed(self.all):
+                        if t.k == "B":
+                            if t.name is None:
+                                t.name = n["pat"]["name"]
+                            break
             if n.get("els") is not None:
                 toks += self.emit(n["els"])
             return toks
@@ -230,6 +238,7 @@ class Extractor:
                 else:
                     out += self.emit(a)
             own = self.classify(n)
+            self.all += own
             out += own
             for c in closure_args:
                 body = self.emit(c["body"])
